@@ -490,12 +490,14 @@ void band_update_stats(band_state *band) {
     }
 
     if (band->r > 0 && band->begun) {
-        uint32_t r_pow_beta = band->r;
+        /* r beyond NMAX already saturates Ni; clamping keeps r^BETA within 64 bits */
+        uint64_t r = (band->r > BAND_NMAX) ? BAND_NMAX : band->r;
+        uint64_t r_pow_beta = r;
         for (int i = 1; i < BAND_BETA; i++) {
-            r_pow_beta *= band->r;
+            r_pow_beta *= r;
         }
-        uint32_t new_ni = BAND_ALPHA * r_pow_beta;
-        band->Ni = (new_ni > BAND_NMAX) ? BAND_NMAX : new_ni;
+        uint64_t new_ni = (uint64_t)BAND_ALPHA * r_pow_beta;
+        band->Ni = (new_ni > BAND_NMAX) ? BAND_NMAX : (uint32_t)new_ni;
     }
 
     band->r = 0;
